@@ -229,7 +229,7 @@ def run(ctx):
             h.hist_str = lambda h=h: h._hist
             h.in_lines = lambda seed, h=h: h._in
             hists.append(h)
-    n = 30 if ctx.tier == 'quick' else 500
+    n = 60 if ctx.tier == 'quick' else 1500
     rng = random.Random(ctx.seed * 7919 + 17)
     for i in range(n):
         h = Hist(rng, 'h%d' % i, rng.choice([1, 2, 3, 3, 4]) if ctx.tier == 'quick' else rng.choice([1, 2, 3, 3, 4, 5]))
